@@ -220,23 +220,45 @@ def firstLogDiff (a b : List LogItem) : String :=
     | _, [], [] => "same"
   go 0 a.reverse b.reverse
 
-/-- canonical form of a write/flush log for the `writes` projection: chronological, empty writes dropped, consecutive
-    writes to contiguous offsets merged (so writing a record field by field or in one call is the same observation);
-    the order of writes, their bytes and their position relative to the flushes are kept -/
-def canonLog (log : List LogItem) : List LogItem :=
-  let close (off : Nat) (chunks : List (List Nat)) (acc : List LogItem) : List LogItem :=
-    LogItem.write off chunks.reverse.flatten :: acc
-  let rec go : List LogItem → Option (Nat × Nat × List (List Nat)) → List LogItem → List LogItem
+/-- net effect of the writes of one segment (chronological `(offset, bytes)` records): the maximal contiguous ranges of
+    bytes written, each with the LAST value written to it, in ascending offset order -/
+def segEffect (ws : List (Nat × List Nat)) : List LogItem :=
+  let ws := ws.filter fun (_, bs) => !bs.isEmpty
+  let sorted := ws.mergeSort fun a b => a.1 ≤ b.1
+  -- do two records of the segment overlap?
+  let rec overlaps : List (Nat × List Nat) → Bool
+    | (o1, b1) :: (o2, b2) :: r => o1 + b1.length > o2 || overlaps ((o2, b2) :: r)
+    | _ => false
+  let pieces : List (Nat × List Nat) :=
+    if !overlaps sorted then sorted
+    else
+      -- rare: some byte is written twice in the segment; replay byte by byte, last write wins
+      let m : Std.HashMap Nat Nat := ws.foldl (fun m (off, bs) =>
+        (bs.zipIdx.foldl (fun m (b, i) => m.insert (off + i) b) m)) {}
+      (m.toList.mergeSort fun a b => a.1 ≤ b.1).map fun (o, b) => (o, [b])
+  -- merge contiguous pieces
+  let rec merge : List (Nat × List Nat) → Option (Nat × Nat × List (List Nat)) → List LogItem → List LogItem
     | [], none, acc => acc.reverse
-    | [], some (off, _, ch), acc => (close off ch acc).reverse
-    | .flush :: r, none, acc => go r none (.flush :: acc)
-    | .flush :: r, some (off, _, ch), acc => go r none (.flush :: close off ch acc)
-    | .write o bs :: r, none, acc => if bs.isEmpty then go r none acc else go r (some (o, o + bs.length, [bs])) acc
-    | .write o bs :: r, some (off, e, ch), acc =>
-      if bs.isEmpty then go r (some (off, e, ch)) acc
-      else if o = e then go r (some (off, e + bs.length, bs :: ch)) acc
-      else go r (some (o, o + bs.length, [bs])) (close off ch acc)
-  go log.reverse none []
+    | [], some (off, _, ch), acc => (LogItem.write off ch.reverse.flatten :: acc).reverse
+    | (o, bs) :: r, none, acc => merge r (some (o, o + bs.length, [bs])) acc
+    | (o, bs) :: r, some (off, e, ch), acc =>
+      if o = e then merge r (some (off, e + bs.length, bs :: ch)) acc
+      else merge r (some (o, o + bs.length, [bs])) (LogItem.write off ch.reverse.flatten :: acc)
+  merge pieces none []
+
+/-- canonical form of a write/flush log for the `writes` projection (input newest first, output chronological): the log
+    is cut at the flushes; each segment is replaced by its net effect (`segEffect`: which bytes end up with which
+    value — the order of the writes inside a segment and the way a record is split into write calls are not observed);
+    a flush that directly follows another flush is dropped. Kept: every byte written and its final value per segment,
+    and the position of every write relative to the flushes. -/
+def canonLog (log : List LogItem) : List LogItem :=
+  let rec go : List LogItem → List (Nat × List Nat) → Bool → List LogItem → List LogItem
+    | [], seg, _, acc => acc ++ segEffect seg.reverse
+    | .flush :: r, seg, lastFlush, acc =>
+      if seg.isEmpty && lastFlush then go r [] true acc
+      else go r [] true (acc ++ segEffect seg.reverse ++ [.flush])
+    | .write o bs :: r, seg, _, acc => go r ((o, bs) :: seg) false acc
+  go log.reverse [] false []
 
 /-- compare one completed operation; returns the mismatch description (kind, detail) if any -/
 def compareOp (cfg : Config) (model : ApiRes) (mdev : Dev) (mimgAfter implAfter : Img) (io : ImplOp) :
